@@ -539,6 +539,28 @@ impl Exec {
             (Ok(Ok(x)), Ok(Ok(y))) => (x, y),
             _ => return Ok(Flow::Go),
         };
+        // the same two positions through BoardBuilder: equal to the FEN construction, hash included
+        let mut bb = bb;
+        for (i, t) in [a, b].iter().enumerate() {
+            if let Some(q) = Pos::from_fen(t) {
+                if let Ok(Ok(via)) = guard(|| board_via_builder(&q)) {
+                    let fen_board = if i == 0 { ba } else { bb };
+                    if observe(&via) == observe(&fen_board) {
+                        self.stats.cnt("reach.pair_member_also_built_through_builder");
+                        if self.on(8) && (via.get_hash() != fen_board.get_hash() || via != fen_board) {
+                            return Err(viol(
+                                "C08",
+                                "hash/builder_differs_from_fen",
+                                format!("{:?}: builder {:016x}, from_str {:016x}", t, via.get_hash(), fen_board.get_hash()),
+                            ));
+                        }
+                        if i == 1 && self.cur_n % 2 == 1 {
+                            bb = via; // every other pair compares the FEN-built original with the builder-built sibling
+                        }
+                    }
+                }
+            }
+        }
         let (oa, ob) = (observe(&ba), observe(&bb));
         let mut f = Fnv::new();
         f.str(a);
